@@ -110,6 +110,9 @@ impl StdRoutingLogic {
         interface_link_type_lookup: &impl Fn(u16) -> Option<AsRoutingInterfaceState>,
         ignore_macs: bool,
     ) -> Result<IngressNextAction, StandardRoutingError> {
+        // The ingress interface is owned by the hop field the packet arrived with
+        let arrival_hop_index = path.curr_hop_field_idx() as usize;
+
         // Advance the path
         let advance_result = path.advance_ingress_with_validator(
             StandardValidator {
@@ -117,6 +120,7 @@ impl StdRoutingLogic {
                 now,
                 interface_link_type_lookup,
                 current_interface_id: ingress_interface_id,
+                arrival_hop_index,
                 forwarding_key,
                 ignore_macs,
             },
@@ -181,9 +185,11 @@ impl StdRoutingLogic {
         ignore_macs: bool,
     ) -> Result<AsRoutingAction, StandardRoutingError> {
         // Advance the path
+        let arrival_hop_index = path.curr_hop_field_idx() as usize;
         let advance_result = path.advance_egress_with_validator(StandardValidator {
             ingress: false,
             current_interface_id: egress_if_id,
+            arrival_hop_index,
             now,
             interface_link_type_lookup,
             forwarding_key,
@@ -480,6 +486,8 @@ struct StandardValidator<'a, Lookup: Fn(u16) -> Option<AsRoutingInterfaceState>>
     now: ScionNetworkTime,
     interface_link_type_lookup: Lookup,
     current_interface_id: u16,
+    /// Index of the hop field the path pointed to before advancing.
+    arrival_hop_index: usize,
     forwarding_key: &'a ForwardingKey,
     ignore_macs: bool,
 }
@@ -504,8 +512,13 @@ impl<'a, Lookup: Fn(u16) -> Option<AsRoutingInterfaceState>> AdvanceValidator
         // Check validity of interfaces
         match self.ingress {
             // Checks done on ingress
+            //
+            // On a segment change the first hop field of the next segment is validated as well,
+            // its ingress interface belongs to the other segment and must not be compared with
+            // the interface the packet arrived on.
             true => {
-                if self.current_interface_id != 0
+                if hop_index == self.arrival_hop_index
+                    && self.current_interface_id != 0
                     && ingress_interface != 0
                     && ingress_interface != self.current_interface_id
                 {
